@@ -360,6 +360,11 @@ class BuilderMixin:
                 self.report("O-balance/finish", "builder.finish() with open nodes %s / %s root nodes" % (list(stack), st.mon.get("roots")), "", sp)
             if st.mon.get("pending") is not None:
                 self.report("O-conserve/drop", "last consumed token %s never added to the tree" % (st.mon["pending"][0],), "", sp)
+            # every token must have been consumed when the tree is finished: the cursor must be known to be at EOF
+            for cur in self.cursors_in(st):
+                if cur[4] is None or cur[4][0] != EOF:
+                    rest = "any tokens" if cur[5] is None else "tokens of %s" % sorted(cur[5][0])
+                    self.report("O-conserve/exhaust", "builder.finish() is reached while %s may still be unread (they would be missing from the tree)" % rest, "", sp)
             return [(OK, ("abs", "green"), st)]
         # error vector: Vec<String>
         if c == "alloc::vec::Vec::<T>::new" and n.get("ty") == "alloc::vec::Vec<alloc::string::String>":
@@ -380,6 +385,22 @@ class BuilderMixin:
         return None
 
     on_start = None
+    def cursors_in(self, st):
+        out = []
+
+        def walk(v, depth=0):
+            if not isinstance(v, tuple) or depth > 6:
+                return
+            if len(v) == 6 and v[0] == "abs" and v[1] == "cursor":
+                out.append(v)
+                return
+            for x in v:
+                if isinstance(x, tuple):
+                    walk(x, depth + 1)
+        for v in st.store.values():
+            walk(v)
+        return out
+
     on_finish = None
     on_token = None
     on_error = None
